@@ -227,14 +227,17 @@ def create_equation_from_terms(terms):
     """
     if len(terms) == 0:
         return ''
-    for i in range(0, len(terms)):
-        term = terms[i].strip()
+    # Work on a copy; the caller's list is left untouched.
+    cleaned = []
+    for term in terms:
+        term = term.strip()
         if not term[0] in ('+', '-'):
             term = '+' + term
-        terms[i] = term
-    if terms[0][0] == '+':
-        terms[0] = terms[0].replace('+', '')
-    eqn = ''.join(terms)
+        cleaned.append(term)
+    if cleaned[0][0] == '+':
+        # Only remove the leading sign, not any '+' inside the term.
+        cleaned[0] = cleaned[0][1:]
+    eqn = ''.join(cleaned)
     return eqn
 
 
